@@ -508,6 +508,49 @@ def extra_scenarios(ctx, rng):
             if bad:
                 ctx.oracle_failure("C:%s:read-only-query:node-refcount-changed" % kind, "OO%s sizes=(%d,%d) keys %r: %s" % (kind, ml, mi, present, bad), {"kind": kind, "sizes": [ml, mi], "keys": present})
             del nodes, t
+    # ---------------- (D) the operators | & - and isdisjoint: the operand CONTAINERS and the elements of an
+    #                      iterable operand are user objects too
+    nD = 0
+    for kind in ("Set", "TreeSet", "Bucket", "BTree"):
+        import operator
+        cls = f.cls(kind, "C")
+        setlike = kind in ("Set", "TreeSet")
+        for opname, op in (("|", operator.or_), ("&", operator.and_), ("-", operator.sub)):
+            pk = [RK(i) for i in range(8)]
+            a = cls(pk[:5]) if setlike else cls([(k, 1) for k in pk[:5]])
+            b = f.cls("Set", "C")(pk[3:])
+            base = [sys.getrefcount(a), sys.getrefcount(b)] + [sys.getrefcount(o) for o in pk]
+            for _ in range(3):
+                r = op(a, b)
+                del r
+            now = [sys.getrefcount(a), sys.getrefcount(b)] + [sys.getrefcount(o) for o in pk]
+            nD += 1
+            ctx.count(("operator", kind, opname))
+            if now != base:
+                ctx.oracle_failure("C:%s:operator:leak" % kind, "OO%s %s OOSet, three times, results dropped: reference counts of (left operand, right operand, keys...) moved by %r" % (
+                    kind, opname, [x - y for x, y in zip(now, base)]), {"kind": kind, "op": opname})
+            del a, b
+        if setlike:
+            for failing in range(1, 8):
+                pk = [RK(i) for i in range(6)]
+                a = cls(pk[:4])
+                other = [RK(10 + i) for i in range(4)]
+                base = [sys.getrefcount(o) for o in pk + other]
+                RK.fail = [failing, 0]
+                try:
+                    a.isdisjoint(other)
+                except Boom:
+                    pass
+                finally:
+                    RK.fail = [None, 0]
+                now = [sys.getrefcount(o) for o in pk + other]
+                nD += 1
+                ctx.count(("isdisjoint-failing", kind, failing))
+                if now != base:
+                    ctx.oracle_failure("C:%s:isdisjoint:leak-on-failing-comparison" % kind, "OO%s.isdisjoint(list) with comparison #%d raising: reference counts moved by %r" % (
+                        kind, failing, [x - y for x, y in zip(now, base)]), {"kind": kind, "failing": failing})
+                del a
+    ctx.cov["operator_and_isdisjoint_cases"] = nD
     ctx.cov["iterate_then_delete_cases"] = nA
     ctx.cov["refused_and_successful_merges_audited"] = nB
     ctx.cov["read_only_queries_audited_for_node_refcounts"] = nC
